@@ -259,11 +259,13 @@ PROPS["C18"] = dict(
         "quick": [
             dict(harness="VerifHarness_C18_quick", reach=["destructive", "additive"]),
             dict(pkg="ariga.io/atlas/sql/sqlite/sqlitecheck", hdir="sqlitecheck", harness="VerifHarness_C18_rebuild2", reach=["destructive", "additive"]),
+            dict(module="cmd/atlas", pkg="ariga.io/atlas/cmd/atlas/internal/migratelint", hdir="migratelint", harness="VerifHarness_C18_lint", reach=["destructive", "additive"]),
             dict(harness="VerifHarness_C18_witness", role="witness", key="C18-order-insensitive-spans"),
         ],
         "thorough": [
             dict(harness="VerifHarness_C18_thorough", reach=["destructive", "additive"]),
             dict(pkg="ariga.io/atlas/sql/sqlite/sqlitecheck", hdir="sqlitecheck", harness="VerifHarness_C18_rebuild3", reach=["destructive", "additive"]),
+            dict(module="cmd/atlas", pkg="ariga.io/atlas/cmd/atlas/internal/migratelint", hdir="migratelint", harness="VerifHarness_C18_lint", reach=["destructive", "additive"]),
             dict(harness="VerifHarness_C18_witness", role="witness", key="C18-order-insensitive-spans"),
         ],
     },
@@ -271,7 +273,9 @@ PROPS["C18"] = dict(
         "quick": "files of 1..3 statements over two tables (t0 with columns c0,c1; t1), each statement one of CREATE/DROP TABLE t0|t1, "
                  "ALTER t0 ADD/DROP COLUMN c0|c1 (dropped column virtual or not), ALTER t0 ADD INDEX; every combination of what exists before the file; "
                  "SQLite rebuild recognition: files of 1..2 units, each a 4-statement table rebuild (keeping all columns / losing one / rename seen as "
-                 "drop+add), a plain DROP TABLE or a CREATE TABLE, through the whole SQLite analyzer chain",
+                 "drop+add), a plain DROP TABLE or a CREATE TABLE, through the whole SQLite analyzer chain; derivation: DevLoader.LoadChanges on a modelled dev "
+                 "database for a new file of 1..13 statements (0, 1, 9, 10 or 11 additive statements, then a drop of a pre-existing table, optionally "
+                 "re-created) on top of one base file, followed by the destructive analyzer",
         "thorough": "same with files of 1..5 statements and 1..3 rebuild units",
     },
     assumptions=[
@@ -279,7 +283,7 @@ PROPS["C18"] = dict(
         "only valid sequences (no CREATE of an existing table, no DROP of a missing one...) are explored",
         "inputs are structural: explored exhaustively by path forking (the solver has no data constraints here)",
     ],
-    outside="DevLoader (statement execution / inspection / diff on a dev database), sqliteparse, "
+    outside="a real dev database (the dev database is a named-table model under the real SQLite driver, differ and DevLoader), sqliteparse, "
             "--latest N windowing, CLI exit status, schema drops (DS101)",
     claim="For every file within the bounds the real destructive.Analyzer (with sqlcheck.File span tracking) reports DS102/DS103 at the position of "
           "exactly the statements that drop a table / non-virtual column not created earlier in the same file, and fails iff there is one; "
